@@ -55,14 +55,14 @@ def kernels():
         lambda r, n, p, q: Plane(r, n).line_xsection(p, q),
         "Lemma {T}_ok : forall {vars} : R, {T}_path ROps {vars} ->\n"
         "  option_map vlist (line_xsection ROps %s (V3 p0 p1 p2) (V3 q0 q1 q2)) = Some ({T} ROps {vars}).\n" % PL
-        + HEAD + "  same_values. Qed.",
+        + HEAD + "  all: same_values. Qed.",
         imports=IMPORTS, perturb=1e-9))
     ks.append(Kernel(
         "line_xsection_parallel", {"r": [0.0, 0.0, 1.0], "n": [0.0, 0.0, 1.0], "p": [0.5, -1.0, 4.0], "q": [1.0, 2.0, 0.0]},
         lambda r, n, p, q: (Plane(r, n).line_xsection(p, q) is None,),
         "Lemma {T}_ok : forall {vars} : R, {T}_path ROps {vars} ->\n"
         "  line_xsection ROps %s (V3 p0 p1 p2) (V3 q0 q1 q2) = None.\n" % PL
-        + HEAD + "  reflexivity. Qed.",
+        + HEAD + "  all: reflexivity. Qed.",
         imports=IMPORTS, perturb=0.0, expect_structure={"tuple": [True]}))
 
     # ---- Plane.line_segment_xsection: crossing, same side (far intersection rejected by the bound test) ----
@@ -71,7 +71,7 @@ def kernels():
         lambda r, n, a, b: Plane(r, n).line_segment_xsection(a, b),
         "Lemma {T}_ok : forall {vars} : R, {T}_path ROps {vars} ->\n"
         "  option_map vlist (line_segment_xsection ROps %s %s %s) = Some ({T} ROps {vars}).\n" % (PL, A, B)
-        + HEAD + "  same_values. Qed.",
+        + HEAD + "  all: same_values. Qed.",
         imports=IMPORTS, perturb=1e-9))
     # an axis-parallel crossing segment with two equal coordinates: pt == a == b there
     ks.append(Kernel(
@@ -79,14 +79,14 @@ def kernels():
         lambda r, n, a, bz: Plane(r, n).line_segment_xsection(a, np.array([a[0], a[1], bz[0]], dtype=a.dtype)),
         "Lemma {T}_ok : forall {vars} : R, {T}_path ROps {vars} ->\n"
         "  option_map vlist (line_segment_xsection ROps %s %s (V3 a0 a1 bz0)) = Some ({T} ROps {vars}).\n" % (PL, A)
-        + HEAD + "  same_values. Qed.",
+        + HEAD + "  all: same_values. Qed.",
         imports=IMPORTS, perturb=1e-9))
     ks.append(Kernel(
         "segment_xsection_same_side", {"r": REF, "n": NRM, "a": [4.0, 0.0, 5.0], "b": [5.0, 1.0, 7.0]},
         lambda r, n, a, b: (Plane(r, n).line_segment_xsection(a, b) is None,),
         "Lemma {T}_ok : forall {vars} : R, {T}_path ROps {vars} ->\n"
         "  line_segment_xsection ROps %s %s %s = None.\n" % (PL, A, B)
-        + HEAD + "  reflexivity. Qed.",
+        + HEAD + "  all: reflexivity. Qed.",
         imports=IMPORTS, perturb=1e-9, expect_structure={"tuple": [True]}))
 
     # ---- stacked forms, two rows -------------------------------------------------------------------------------
